@@ -34,6 +34,16 @@
 
 #include "common/prng.hpp"
 
+// C11: the same histories over arrays whose allocator hands out a user-defined pointer type (harness/common/fancy_ptr.hpp):
+//   PTR_KIND 0 (default) std::allocator / raw pointers;  1 minimal offset pointer;  2 offset pointer that counts dereferences outside the
+//   live blocks (reported as `OOB-DEREF <n>` at the end of the program).  The answer lines are the same in all three builds.
+#ifndef PTR_KIND
+#define PTR_KIND 0
+#endif
+#if PTR_KIND != 0
+#include "common/fancy_alloc.hpp"
+#endif
+
 namespace multi = boost::multi;
 using idx_t     = multi::index;
 
@@ -143,13 +153,27 @@ constexpr bool have_zero_d = false;
 template<class T, class U>
 struct H {
 	static constexpr bool trivial = std::is_trivially_default_constructible_v<T>;
+#if PTR_KIND == 0
 	template<multi::dimensionality_type D> using A  = multi::array<T, D>;
 	template<multi::dimensionality_type D> using UA = multi::array<U, D>;
+	using Ptr = T*;
+	template<class P> static char const* raw_pos(P p) { return reinterpret_cast<char const*>(p); }
+	static Ptr to_mut_ptr(T const* p) { return const_cast<T*>(p); }
+#else
+	template<multi::dimensionality_type D> using A  = multi::array<T, D, fancy::fancy_alloc<T>>;
+	template<multi::dimensionality_type D> using UA = multi::array<U, D, fancy::fancy_alloc<U>>;
+	using Ptr = fancy::xptr<T>;
+	// position of a pointer as an address, computed from the offset — never by dereferencing
+	template<class E> static char const* raw_pos(fancy::xptr<E> const& p) {
+		return static_cast<char const*>(fancy::g_origin) + p.off() * static_cast<std::ptrdiff_t>(sizeof(E));
+	}
+	template<class E> static Ptr to_mut_ptr(fancy::xptr<E> const& p) { return Ptr::at(p.off()); }
+#endif
 	using Slot  = std::variant<std::monostate, A<0>, A<1>, A<2>, A<3>, A<4>>;
 	using USlot = std::variant<std::monostate, UA<1>, UA<2>, UA<3>, UA<4>>;
 	static constexpr int NT = 8, NU = 2, NS = NT + NU, NV = 4;
 
-	template<multi::dimensionality_type D> struct VS { static constexpr multi::dimensionality_type rank = D; multi::layout_t<D> lay; T* base; };
+	template<multi::dimensionality_type D> struct VS { static constexpr multi::dimensionality_type rank = D; multi::layout_t<D> lay; Ptr base; };
 	using AnyView = std::variant<VS<1>, VS<2>, VS<3>, VS<4>>;
 	struct VReg { bool valid = false; int src = -1; AnyView av; };
 
@@ -192,7 +216,7 @@ struct H {
 		with(k, [&](auto& a) {
 			using AT = std::decay_t<decltype(a)>;
 			r.D = static_cast<int>(AT::rank_v); r.ex = exts_of(a); r.n = static_cast<long>(a.num_elements());
-			r.p = reinterpret_cast<char const*>(a.data_elements()); r.bytes = static_cast<std::size_t>(r.n) * sizeof(typename AT::element_type);
+			r.p = raw_pos(a.data_elements()); r.bytes = static_cast<std::size_t>(r.n) * sizeof(typename AT::element_type);
 			if constexpr(AT::rank_v > 0) {
 				if(static_cast<long>(a.size()) != (r.ex.empty() ? 0 : r.ex[0].size())) internal("size() != extension().size()");
 				if(a.is_empty() != (a.size() == 0)) internal("is_empty() != (size() == 0)");
@@ -222,7 +246,7 @@ struct H {
 					long i = 0; bool ok = true;
 					for(auto it = ca.elements().begin(); it != ca.elements().end(); ++it, ++i) { if(&*it != &at(ca, idxs[static_cast<std::size_t>(i)].data())) ok = false; }
 					if(i != static_cast<long>(idxs.size())) ok = false;
-					for(std::size_t j = 0; j < idxs.size(); ++j) { if(ca.data_elements() + j != &at(ca, idxs[j].data())) ok = false; }
+					for(std::size_t j = 0; j < idxs.size(); ++j) { if(raw_pos(ca.data_elements() + static_cast<std::ptrdiff_t>(j)) != reinterpret_cast<char const*>(&at(ca, idxs[j].data()))) ok = false; }
 					if(!ok) std::fprintf(fans, "REF-MISMATCH slot %d: elements() / data_elements() order differs from operator[] order\n", k);
 				}
 			}
@@ -268,10 +292,10 @@ struct H {
 	}
 
 	// ------------------------------------------------------------------------------------------------ views
-	template<multi::dimensionality_type D> static auto mk(VS<D> const& s) { return multi::subarray<T, D, T*>(s.lay, s.base); }
+	template<multi::dimensionality_type D> static auto mk(VS<D> const& s) { return multi::subarray<T, D, Ptr>(s.lay, s.base); }
 	template<class V> static AnyView store(V&& v) {
 		constexpr auto D = std::decay_t<V>::rank_v;
-		if constexpr(D >= 1 && D <= 4) { return AnyView{VS<D>{v.layout(), const_cast<T*>(static_cast<T const*>(v.base()))}}; }
+		if constexpr(D >= 1 && D <= 4) { return AnyView{VS<D>{v.layout(), to_mut_ptr(v.base())}}; }
 		else { die("view dimensionality out of range"); }
 	}
 	static int view_dim(AnyView const& av) { return static_cast<int>(av.index()) + 1; }
@@ -525,11 +549,11 @@ struct H {
 				if(op == "vctor") {
 					if(how == 0) slots[dst].template emplace<A<DD>>(v);
 					else if(how == 1) slots[dst].template emplace<A<DD>>(mk(s));
-					else slots[dst].template emplace<A<DD>>(static_cast<multi::const_subarray<T, DD, T*> const&>(v));
+					else slots[dst].template emplace<A<DD>>(static_cast<multi::const_subarray<T, DD, Ptr> const&>(v));
 				} else {
 					if(how == 0) slots[dst].template emplace<A<DD>>(+v);
 					else if(how == 1) slots[dst].template emplace<A<DD>>(v.decay());
-					else slots[dst].template emplace<A<DD>>(decay(static_cast<multi::const_subarray<T, DD, T*> const&>(v)));
+					else slots[dst].template emplace<A<DD>>(decay(static_cast<multi::const_subarray<T, DD, Ptr> const&>(v)));
 				}
 			}, av);
 			set_ref(dst, view_dim(av), ex, vals);
@@ -579,7 +603,7 @@ struct H {
 					constexpr auto DD = S::rank;
 					if constexpr(DD == AT::rank_v) {
 						auto&& v = mk(s);
-						if(op == "vassign") a = static_cast<multi::const_subarray<T, DD, T*> const&>(v);  // array::operator=(const_subarray const&)
+						if(op == "vassign") a = static_cast<multi::const_subarray<T, DD, Ptr> const&>(v);  // array::operator=(const_subarray const&)
 						else a = v;                                                                        // array::operator=(Range&&)
 					} else die("view/array dimension mismatch");
 				}, av);
@@ -639,7 +663,7 @@ struct H {
 				using AT = std::decay_t<decltype(a)>; auto const& ca = a;
 				if constexpr(AT::rank_v >= 1) {
 					if(kind == "plus") slots[dst].template emplace<AT>(+ca);
-					else slots[dst].template emplace<AT>(ca.decay());
+					else slots[dst].template emplace<AT>(ca.decay());   // array_ref::decay(): returned a dangling reference for non-T* pointers until 84c5929
 				} else die("decay of a 0-D array");
 			});
 			refs[dst] = refs[src];
@@ -1022,17 +1046,24 @@ struct H {
 };
 
 // ---------------------------------------------------------------------------------------------------- program isolation
+static void report_oob() {
+#if PTR_KIND == 2
+	if(fancy::g_oob_deref != 0) { std::fprintf(fans, "OOB-DEREF %ld\n", fancy::g_oob_deref); fancy::g_oob_deref = 0; }
+#endif
+}
 template<class HT> static int child_generated(std::uint64_t seed, long p, bool full, bool c06) {
 	HT h; h.c06 = c06;
 	h.full = full;
 	Rng rng(seed * 1000003ULL + static_cast<std::uint64_t>(p) + (HT::trivial ? 0ULL : 500009ULL) + (full ? 250007ULL : 0ULL) + (c06 ? 125003ULL : 0ULL));  // streams of different modes differ
 	h.il_focus = full && rng.coin(50);
 	h.run_program(rng);
+	report_oob();
 	return g_internal ? 3 : 0;
 }
 template<class HT> static int child_replay(std::vector<std::string> const& lines) {
 	HT h;
 	for(auto const& l : lines) { std::fprintf(fprog, "%s\n", l.c_str()); std::fflush(fprog); h.run_line(l); }
+	report_oob();
 	return g_internal ? 3 : 0;
 }
 template<class F> static int isolated(F&& body) {
@@ -1055,6 +1086,9 @@ int main(int argc, char** argv) {
 	fprog = std::fopen(argv[4], "w"); fans = std::fopen(argv[5], "w");
 	if(!fprog || !fans) { std::perror("fopen"); return 2; }
 	setvbuf(fprog, nullptr, _IOLBF, 0); setvbuf(fans, nullptr, _IOLBF, 0);  // a crash must not lose the lines already produced
+#if PTR_KIND != 0
+	fancy::arena_init();
+#endif
 	int worst = 0;
 	using HI = H<int, long>;
 	using HS = H<Str, int>;
